@@ -1367,9 +1367,27 @@ Fixpoint dkeys_distinct (l : list dv) : bool :=
   | x :: r => negb (existsb (dkey_eqb x) r) && dkeys_distinct r
   end.
 
+(* the key data of the record types declared in front of a document *)
+Definition rts_data (rts : list rtdecl) : option (list (bytes * list dv)) :=
+  omap2 (fun d : rtdecl => match omap2 sem (snd d) with Some ks => Some (fst d, ks) | None => None end) rts.
+
+(* the map key a record type key turns into, for the kinds whose conversion needs no library:
+   booleans, 64-bit integers, UIDs and strings *)
+Definition rkey (sc : scalar) : option uval :=
+  match sc with
+  | SBool b => Some (UBool b)
+  | SInt z => Some (UInt z)
+  | SUint n => Some (UUint n)
+  | SUid b => if (length b =? 16)%nat then Some (UUid b) else None
+  | SArr t data | SStr t data => if t =? AT_String then Some (UStr data) else None
+  | _ => None
+  end.
+
 Section Fragment.
   Variable url_conv : bytes -> option bytes.
   Variable time_conv : bytes -> option (bytes * bytes).
+  (* the key data of the record types of the document *)
+  Variable rd : list (bytes * list dv).
 
   (* the conversion through the Go library gives the same text back *)
   Definition url_ok (s : bytes) : bool :=
@@ -1469,20 +1487,42 @@ Section Fragment.
                end
              end
     | TRef id => if is_key p then None else if mem_id id ids then Some ids else None
-    | TEdge _ _ _ | TRecord _ _ => None
+    | TRecord name vals =>
+        if is_key p then None
+        else match tab_lookup name rd with
+             | Some kds => if (length vals =? length kds)%nat then supp_list ids vals else None
+             | None => None
+             end
+    | TEdge _ _ _ => None
     end.
 
-  (* a whole document of the fragment: no record types, the top-level value in the fragment *)
-  Definition supported6 (rts : list rtdecl) (t : dt) : bool :=
-    match rts, supp [] PGen t with
-    | [], Some _ => true
-    | _, _ => false
+  (* a key of a record type: one value event (or a string in chunks) of a kind [rkey] knows *)
+  Definition rt_key_ok (k : dt) : bool :=
+    match k with
+    | TLeaf e => match event_scalar e with
+                 | Some sc => match rkey sc with Some _ => true | None => false end
+                 | None => false
+                 end
+    | TChunked b body => chunked_ok PKey b body
+    | _ => false
     end.
+  Fixpoint names_distinct (l : list bytes) : bool :=
+    match l with [] => true | x :: r => negb (mem_id x r) && names_distinct r end.
+  Definition rts_ok (rts : list rtdecl) : bool :=
+    names_distinct (map fst rts) &&
+    forallb (fun d : rtdecl =>
+               forallb rt_key_ok (snd d) &&
+               match omap2 sem (snd d) with Some ks => dkeys_distinct ks | None => false end) rts.
 End Fragment.
 
-(* the key data of the record types declared in front of a document *)
-Definition rts_data (rts : list rtdecl) : option (list (bytes * list dv)) :=
-  omap2 (fun d : rtdecl => match omap2 sem (snd d) with Some ks => Some (fst d, ks) | None => None end) rts.
+(* a whole document of the fragment: record types with distinct names and distinct keys of the
+   kinds above, the top-level value in the fragment *)
+Definition supported6 (url_conv : bytes -> option bytes) (time_conv : bytes -> option (bytes * bytes))
+           (rts : list rtdecl) (t : dt) : bool :=
+  match rts_data rts with
+  | Some rd => rts_ok url_conv rts && match supp url_conv time_conv rd [] PGen t with Some _ => true | None => false end
+  | None => false
+  end.
 
 (* data that the iterator can emit as a valid document: no edge (iterateEdge omits the
    end-container event), no empty media type (the iterator refuses it); arrays of numbers *)
